@@ -18,6 +18,11 @@ GOSMT = os.path.join(VERIF, "bin", "gosmt")
 PKGDIR = os.path.join(REPO, "internal", "ergo")
 
 
+# primary solver: z3 5.1.0 (z3-new) - on the file-model queries it is ~30x faster than 4.8.12;
+# the thorough tier re-decides every obligation with z3 4.8.12 and flags disagreements
+SOLVER = os.environ.get("VERIF_SOLVER", "z3-new")
+
+
 def sh(cmd, **kw):
     return subprocess.run(cmd, stdout=subprocess.PIPE, stderr=subprocess.STDOUT, text=True, **kw)
 
@@ -44,7 +49,7 @@ class Unit:
 
     def __init__(self, name, harness, entry, flags=None, note="", bounds=""):
         self.name = name
-        self.harness = ["intrinsics.go", "world_native.go", "common.go"] + [h for h in harness if h not in ("world_native.go", "common.go")]
+        self.harness = ["intrinsics.go", "world_native.go", "fs_native.go", "common.go"] + [h for h in harness if h not in ("world_native.go", "fs_native.go", "common.go")]
         self.entry = entry
         self.flags = flags or {}
         self.note = note
@@ -54,10 +59,10 @@ class Unit:
 def run_unit(unit, outdir, timeout_ms, workers, second=None):
     out = os.path.join(outdir, unit.entry + ".json")
     cmd = [GOSMT, "-repo", REPO, "-harness", ",".join(os.path.join(VERIF, "harness", h) for h in unit.harness),
-           "-entry", unit.entry, "-out", out, "-timeout", str(timeout_ms), "-workers", str(workers)]
+           "-entry", unit.entry, "-out", out, "-timeout", str(timeout_ms), "-workers", str(workers), "-solver", SOLVER]
     for k, v in unit.flags.items():
         if not k.startswith("_"):
-            cmd += ["-" + k, str(v)]
+            cmd += ["-" + k] + ([str(v)] if v != "" else [])
     if second:
         cmd += ["-second", second]
     t0 = time.time()
@@ -90,19 +95,23 @@ func TestZZReplay(t *testing.T) {
 		fmt.Println("ZZ-NOENTRY")
 		return
 	}
+	var outcome []string
 	func() {
 		defer func() {
 			if r := recover(); r != nil {
 				if _, ok := r.(zzAssumeFailed); ok {
-					fmt.Println("ZZ-ASSUME-FAILED")
+					outcome = append(outcome, "ZZ-ASSUME-FAILED")
 					return
 				}
-				fmt.Printf("ZZ-PANIC: %%v\\n", r)
+				outcome = append(outcome, fmt.Sprintf("ZZ-PANIC: %%v", r))
 			}
 		}()
 		fn()
 	}()
 	zzWorldCleanup()
+	for _, l := range outcome {
+		fmt.Println(l)
+	}
 	for _, l := range zzLoad().Failed {
 		fmt.Println("ZZ-FAILED:", l)
 	}
@@ -201,7 +210,7 @@ def check_property(prop, tier, units, level_text, assumptions, extra=None, post=
     ncpu = os.cpu_count() or 8
     par = min(len(units), 4) or 1
     workers = max(2, ncpu // par)
-    second = "z3-new" if tier == "thorough" else None
+    second = ("z3" if SOLVER != "z3" else "z3-new") if tier == "thorough" else None
     with ThreadPoolExecutor(max_workers=par) as pool:
         results = list(pool.map(lambda u: run_unit(u, outdir, timeout_ms, workers, second), units))
 
@@ -271,7 +280,7 @@ def check_property(prop, tier, units, level_text, assumptions, extra=None, post=
             cex_n += 1
             cex = os.path.join(outdir, "cex-%d.json" % cex_n)
             json.dump({"property": prop, "entry": u.entry, "harness": u.harness, "assertion": o["label"], "at": o["pos"], "kind": o["kind"],
-                       "values": values, "concretisation": info, "raw_model": o["model"], "bounds": u.bounds}, open(cex, "w"), indent=1)
+                       "values": values, "meta": res.get("meta", {}), "concretisation": info, "raw_model": o["model"], "bounds": u.bounds}, open(cex, "w"), indent=1)
             rr = replayer.run(u.entry, cex)
             reproduced = rr.get("ok") and (o["label"] in rr.get("failed", []) or (o["kind"] == "panic" and rr.get("panic")))
             if o["kind"] == "unwind":
@@ -317,11 +326,11 @@ def check_property(prop, tier, units, level_text, assumptions, extra=None, post=
             "functions_encoded": functions, "stubs_and_models_hit": models_hit,
             "bounds": {u.name: {"entry": u.entry, "bounds": u.bounds, "flags": u.flags, "note": u.note} for u in units},
             "reachability_witnesses": reach,
-            "solver": solver_version("z3") + ((" ; cross-checked with " + solver_version("z3-new")) if second else ""),
+            "solver": solver_version(SOLVER) + ((" ; cross-checked with " + solver_version(second)) if second else ""),
             "solver_time_s": round(solver_time, 2), "solver_max_query_s": round(solver_max, 2),
             "encode_time_s": round(sum(r.get("encode_time_s", 0) for r in results), 2),
             "checker_cmd": "./check %s %s" % (prop, tier),
-            "trusted_base": ["go/ssa construction (golang.org/x/tools v0.50.0)", "gosmt executor and models (/verif/engine)", "z3 4.8.12"],
+            "trusted_base": ["go/ssa construction (golang.org/x/tools v0.50.0)", "gosmt executor and models (/verif/engine)", solver_version(SOLVER)],
             "inconclusive_detail": inconclusive[:20],
         },
         "assumptions": assumptions,
